@@ -20,7 +20,7 @@ theorem safe_jLock {s : St} {j : Nat} (h : Safe s) (hj : j < s.nJob) (hpc : (s.j
     have := (h.jobs k hk).lock hc
     rw [hl] at this; cases this
   apply safe_setJob h1
-  · obtain ⟨h0, hn1, hn2, h1, h2, h3, h4, h5, h6, h7, h8, h9, h10, h11, h12, h13, h14⟩ := h.jobs j hj
+  · obtain ⟨h0, hn0, hn1, hn2, h1, h2, h3, h4, h5, h6, h7, h8, h9, h10, h11, h12, h13, h14⟩ := h.jobs j hj
     generalize s.job j = b at *
     obtain ⟨kind, pc, payload, snap, inputs, trivial, todoIn, out, edit, csnap, newVer, prev, prevZero, dlist, live, todoDel⟩ := b
     simp only at hpc; subst hpc
@@ -32,7 +32,7 @@ theorem safe_jLock {s : St} {j : Nat} (h : Safe s) (hj : j < s.nJob) (hpc : (s.j
 theorem safe_readyEmpty {s : St} {j : Nat} (h : Safe s) (hj : j < s.nJob) (hpc : (s.job j).pc = .ready) :
     Safe (setPc s j .cUnlocked) := by
   apply safe_setPc_plain h
-  obtain ⟨h0, hn1, hn2, h1, h2, h3, h4, h5, h6, h7, h8, h9, h10, h11, h12, h13, h14⟩ := h.jobs j hj
+  obtain ⟨h0, hn0, hn1, hn2, h1, h2, h3, h4, h5, h6, h7, h8, h9, h10, h11, h12, h13, h14⟩ := h.jobs j hj
   generalize s.job j = b at *
   obtain ⟨kind, pc, payload, snap, inputs, trivial, todoIn, out, edit, csnap, newVer, prev, prevZero, dlist, live, todoDel⟩ := b
   simp only at hpc; subst hpc
@@ -57,7 +57,7 @@ theorem safe_jSnap {s : St} {j : Nat} (h : Safe s) (hj : j < s.nJob) (hpc : (s.j
   have hb1 := jobOk_acquire (o := some j) hb0
   have hb2 := jobOk_build (e := (s.job j).edit) hb1 h1.ver_bound.1 h1.ver_bound.2.1 h1.ver_bound.2.2
   apply safe_setJob h2
-  · obtain ⟨h0, hn1, hn2, h1, h2, h3, h4, h5, h6, h7, h8, h9, h10, h11, h12, h13, h14⟩ := hb2
+  · obtain ⟨h0, hn0, hn1, hn2, h1, h2, h3, h4, h5, h6, h7, h8, h9, h10, h11, h12, h13, h14⟩ := hb2
     have hown0 := hb0.own
     generalize s.job j = b at *
     obtain ⟨kind, pc, payload, snap, inputs, trivial, todoIn, out, edit, csnap, newVer, prev, prevZero, dlist, live, todoDel⟩ := b
@@ -76,7 +76,7 @@ theorem safe_jSwap {s : St} {j : Nat} (h : Safe s) (hj : j < s.nJob) (hpc : (s.j
   have hb0 := h.jobs j hj
   have h1 : Safe (setPc s j .cSwapped) := by
     apply safe_setPc_plain h
-    obtain ⟨h0, hn1, hn2, h1, h2, h3, h4, h5, h6, h7, h8, h9, h10, h11, h12, h13, h14⟩ := hb0
+    obtain ⟨h0, hn0, hn1, hn2, h1, h2, h3, h4, h5, h6, h7, h8, h9, h10, h11, h12, h13, h14⟩ := hb0
     generalize s.job j = b at *
     obtain ⟨kind, pc, payload, snap, inputs, trivial, todoIn, out, edit, csnap, newVer, prev, prevZero, dlist, live, todoDel⟩ := b
     simp only at hpc; subst hpc
@@ -111,7 +111,7 @@ theorem safe_jCheck {s : St} {j : Nat} (h : Safe s) (hj : j < s.nJob) (hpc : (s.
     Safe (jCheck s j) := by
   unfold jCheck
   apply safe_setJob h
-  · obtain ⟨h0, hn1, hn2, h1, h2, h3, h4, h5, h6, h7, h8, h9, h10, h11, h12, h13, h14⟩ := h.jobs j hj
+  · obtain ⟨h0, hn0, hn1, hn2, h1, h2, h3, h4, h5, h6, h7, h8, h9, h10, h11, h12, h13, h14⟩ := h.jobs j hj
     generalize s.job j = b at *
     obtain ⟨kind, pc, payload, snap, inputs, trivial, todoIn, out, edit, csnap, newVer, prev, prevZero, dlist, live, todoDel⟩ := b
     simp only at hpc; subst hpc
@@ -124,7 +124,7 @@ theorem safe_jPrevRm {cfg : Cfg} {s : St} {j : Nat} (hr : cfg.recheck = true) (h
   dsimp only
   have h1 : Safe (setPc s j .cPrevDone) := by
     apply safe_setPc_plain h
-    obtain ⟨h0, hn1, hn2, h1, h2, h3, h4, h5, h6, h7, h8, h9, h10, h11, h12, h13, h14⟩ := h.jobs j hj
+    obtain ⟨h0, hn0, hn1, hn2, h1, h2, h3, h4, h5, h6, h7, h8, h9, h10, h11, h12, h13, h14⟩ := h.jobs j hj
     generalize s.job j = b at *
     obtain ⟨kind, pc, payload, snap, inputs, trivial, todoIn, out, edit, csnap, newVer, prev, prevZero, dlist, live, todoDel⟩ := b
     simp only at hpc; subst hpc
@@ -149,7 +149,7 @@ theorem safe_cDec {s : St} {j : Nat} (h : Safe s) (hj : j < s.nJob) (hpc : (s.jo
   have hcs := hb0.csnap (by rw [hpc]; rfl)
   have h1 : Safe (setPc s j .cDecd) := by
     apply safe_setPc_plain h
-    obtain ⟨h0, hn1, hn2, h1, h2, h3, h4, h5, h6, h7, h8, h9, h10, h11, h12, h13, h14⟩ := hb0
+    obtain ⟨h0, hn0, hn1, hn2, h1, h2, h3, h4, h5, h6, h7, h8, h9, h10, h11, h12, h13, h14⟩ := hb0
     generalize s.job j = b at *
     obtain ⟨kind, pc, payload, snap, inputs, trivial, todoIn, out, edit, csnap, newVer, prev, prevZero, dlist, live, todoDel⟩ := b
     simp only at hpc; subst hpc
@@ -170,7 +170,7 @@ theorem safe_cRemove {cfg : Cfg} {s : St} {j : Nat} (hr : cfg.recheck = true) (h
   have hcs := hb0.csnap (by rw [hpc]; rfl)
   have h1 : Safe (setPc s j .cRemoved) := by
     apply safe_setPc_plain h
-    obtain ⟨h0, hn1, hn2, h1, h2, h3, h4, h5, h6, h7, h8, h9, h10, h11, h12, h13, h14⟩ := hb0
+    obtain ⟨h0, hn0, hn1, hn2, h1, h2, h3, h4, h5, h6, h7, h8, h9, h10, h11, h12, h13, h14⟩ := hb0
     generalize s.job j = b at *
     obtain ⟨kind, pc, payload, snap, inputs, trivial, todoIn, out, edit, csnap, newVer, prev, prevZero, dlist, live, todoDel⟩ := b
     simp only at hpc; subst hpc
@@ -184,7 +184,7 @@ theorem safe_cRel {s : St} {j : Nat} (h : Safe s) (hj : j < s.nJob)
   have hcs := hb0.csnap (by rw [hpc]; rfl)
   have h1 : Safe (setPc s j .cReleased) := by
     apply safe_setPc_plain h
-    obtain ⟨h0, hn1, hn2, h1, h2, h3, h4, h5, h6, h7, h8, h9, h10, h11, h12, h13, h14⟩ := hb0
+    obtain ⟨h0, hn0, hn1, hn2, h1, h2, h3, h4, h5, h6, h7, h8, h9, h10, h11, h12, h13, h14⟩ := hb0
     generalize s.job j = b at *
     obtain ⟨kind, pc, payload, snap, inputs, trivial, todoIn, out, edit, csnap, newVer, prev, prevZero, dlist, live, todoDel⟩ := b
     simp only at hpc; subst hpc
@@ -198,7 +198,7 @@ theorem safe_jUnlock {s : St} {j : Nat} (h : Safe s) (hj : j < s.nJob) (hpc : (s
   have hlock := hb0.lock (by rw [hpc]; rfl)
   have h1 : Safe (setPc s j .cUnlocked) := by
     apply safe_setPc_plain h
-    obtain ⟨h0, hn1, hn2, h1, h2, h3, h4, h5, h6, h7, h8, h9, h10, h11, h12, h13, h14⟩ := hb0
+    obtain ⟨h0, hn0, hn1, hn2, h1, h2, h3, h4, h5, h6, h7, h8, h9, h10, h11, h12, h13, h14⟩ := hb0
     generalize s.job j = b at *
     obtain ⟨kind, pc, payload, snap, inputs, trivial, todoIn, out, edit, csnap, newVer, prev, prevZero, dlist, live, todoDel⟩ := b
     simp only at hpc; subst hpc
@@ -219,7 +219,7 @@ theorem safe_jUnpend {s : St} {j : Nat} (pc' : Pc) (h : Safe s) (hj : j < s.nJob
   have hb0 := h.jobs j hj
   have h1 : Safe (setPc s j pc') := by
     apply safe_setPc_plain h
-    obtain ⟨h0, hn1, hn2, h1, h2, h3, h4, h5, h6, h7, h8, h9, h10, h11, h12, h13, h14⟩ := hb0
+    obtain ⟨h0, hn0, hn1, hn2, h1, h2, h3, h4, h5, h6, h7, h8, h9, h10, h11, h12, h13, h14⟩ := hb0
     generalize s.job j = b at *
     obtain ⟨kind, pc, payload, snap, inputs, trivial, todoIn, out, edit, csnap, newVer, prev, prevZero, dlist, live, todoDel⟩ := b
     simp only at hpc hpc'; subst hpc
@@ -240,7 +240,7 @@ theorem safe_oDec {s : St} {j : Nat} (h : Safe s) (hj : j < s.nJob) (hpc : (s.jo
   have hown := hb0.own hk (by rw [hpc]; rfl)
   have h1 : Safe (setPc s j .oDecd) := by
     apply safe_setPc_plain h
-    obtain ⟨h0, hn1, hn2, h1, h2, h3, h4, h5, h6, h7, h8, h9, h10, h11, h12, h13, h14⟩ := hb0
+    obtain ⟨h0, hn0, hn1, hn2, h1, h2, h3, h4, h5, h6, h7, h8, h9, h10, h11, h12, h13, h14⟩ := hb0
     generalize s.job j = b at *
     obtain ⟨kind, pc, payload, snap, inputs, trivial, todoIn, out, edit, csnap, newVer, prev, prevZero, dlist, live, todoDel⟩ := b
     simp only at hpc; subst hpc
@@ -260,7 +260,7 @@ theorem safe_oRemove {cfg : Cfg} {s : St} {j : Nat} (hr : cfg.recheck = true) (h
   have hidx := hb0.ownIdx (Or.inl hpc)
   have h1 : Safe (setPc s j .oRemoved) := by
     apply safe_setPc_plain h
-    obtain ⟨h0, hn1, hn2, h1, h2, h3, h4, h5, h6, h7, h8, h9, h10, h11, h12, h13, h14⟩ := hb0
+    obtain ⟨h0, hn0, hn1, hn2, h1, h2, h3, h4, h5, h6, h7, h8, h9, h10, h11, h12, h13, h14⟩ := hb0
     generalize s.job j = b at *
     obtain ⟨kind, pc, payload, snap, inputs, trivial, todoIn, out, edit, csnap, newVer, prev, prevZero, dlist, live, todoDel⟩ := b
     simp only at hpc; subst hpc
@@ -274,7 +274,7 @@ theorem safe_oRel {s : St} {j : Nat} (h : Safe s) (hj : j < s.nJob)
   have hidx := hb0.ownIdx (Or.inr hpc)
   have h1 : Safe (setPc s j .doStart) := by
     apply safe_setPc_plain h
-    obtain ⟨h0, hn1, hn2, h1, h2, h3, h4, h5, h6, h7, h8, h9, h10, h11, h12, h13, h14⟩ := hb0
+    obtain ⟨h0, hn0, hn1, hn2, h1, h2, h3, h4, h5, h6, h7, h8, h9, h10, h11, h12, h13, h14⟩ := hb0
     generalize s.job j = b at *
     obtain ⟨kind, pc, payload, snap, inputs, trivial, todoIn, out, edit, csnap, newVer, prev, prevZero, dlist, live, todoDel⟩ := b
     simp only at hpc; subst hpc
